@@ -515,6 +515,21 @@ SCENARIO(pool_2c) {
   w.after_dtor();
 }
 
+// stop requested on the receivers' token before anything is scheduled: every item gets set_done
+// (still on a pool thread, still exactly once)
+SCENARIO(pool_tokfirst) {
+  PoolWorld w(2, 2);
+  w.src.request_stop(); w.tok_begun = w.tok_ended = true;
+  {
+    unifex::static_thread_pool pool(2);
+    auto sched = pool.get_scheduler();
+    w.ops.enq(sched, 0); w.ops.enq(sched, 1);
+    w.stop_begun = true;
+    rt::obs("dtor.begin");
+  }
+  w.after_dtor();
+}
+
 // ------------------------------------------------------------------ new_thread_context
 namespace {
 using NtSched = decltype(std::declval<unifex::new_thread_context&>().get_scheduler());
@@ -542,5 +557,6 @@ struct NtWorld : World {
 SCENARIO(nt_1) { NtWorld w(1); w.run_all(); }
 SCENARIO(nt_2) { NtWorld w(2); w.run_all(); }
 SCENARIO(nt_3) { NtWorld w(3); w.run_all(); }
+SCENARIO(nt_tokfirst) { NtWorld w(2); w.src.request_stop(); w.tok_begun = w.tok_ended = true; w.run_all(); }
 
 RT_MAIN()
